@@ -40,6 +40,16 @@ CHECKS = {
              " Algebraic inputs: completeness decided only inside the box [-4,4]^k (k<=3) / [-3,3]^4, exact confirmation via sympy minimal_polynomial.",
         design="DESIGN.md section 4 C16",
     ),
+    "C08": dict(
+        technique="property-based testing: generated (family, parameters, order) tuples against independent textbook formulas and defining integrals (mpmath quadrature)",
+        text="Generated-input search over the ten families with rational, decimal-literal and symbolic parameters: raw moments k=0..8 exactly against "
+             "independently written formulas (each re-validated per case against quadrature of the density), supports and discreteness, cf/mgf values against "
+             "E exp(itX) / E exp(tX) by quadrature, derivatives at 0 against the moments, the mgf existence predicate in both directions, "
+             "symbolic-parameter-then-substitute (metamorphic) and the location/scale rewriting of DistTransformer (moments 1..6 of the emitted polynomial).",
+        note="Trusted base: Hypothesis, mpmath quadrature at 40 digits, lib/refsem.family_moment + lib/distref (own formulas/densities). TruncNormal tolerance 1e-9 "
+             "(docstring disclaims exactness). Expressions that are undefined at a point (cf of DiscreteUniform at t=0) are counted as refusals, not wrong values.",
+        design="DESIGN.md section 4 C08",
+    ),
 }
 
 PENDING = {}
